@@ -67,6 +67,16 @@ func harnessOverlay() (map[string][]byte, error) {
 		}
 		ov[filepath.Join(dir, "zz_verif_prelude.go")] = []byte(strings.Replace(string(prelude), "package PKG", "package "+goPkg, 1))
 	}
+	// C04 switch: eval/memo.go regenerated from the current source with "if verifCacheOff" guards
+	if b, err := os.ReadFile(filepath.Join(repoDir, "eval", "memo.go")); err == nil {
+		if m, ok := rewriteMemo(string(b)); ok {
+			ov[filepath.Join(repoDir, "eval", "memo.go")] = []byte(m)
+		} else {
+			memoRewriteFailed = true
+		}
+	} else {
+		memoRewriteFailed = true
+	}
 	return ov, nil
 }
 
@@ -111,4 +121,26 @@ func (l *Loaded) pkg(short string) *ssa.Package {
 		return l.pkgs[modPath]
 	}
 	return l.pkgs[modPath+"/"+short]
+}
+
+var memoRewriteFailed bool
+
+// rewriteMemo inserts the cache-off switch at the top of Cache.Get and Cache.Set (add-only; the variable
+// verifCacheOff is declared by the eval harness). ok=false if the two functions are not found.
+func rewriteMemo(src string) (string, bool) {
+	ins := func(src, sig, guard string) (string, bool) {
+		i := strings.Index(src, sig)
+		if i < 0 {
+			return src, false
+		}
+		j := strings.Index(src[i:], "{\n")
+		if j < 0 {
+			return src, false
+		}
+		p := i + j + 2
+		return src[:p] + guard + src[p:], true
+	}
+	out, ok1 := ins(src, "func (c Cache) Get(", "\tif verifCacheOff {\n\t\treturn nil, nil, false\n\t}\n")
+	out, ok2 := ins(out, "func (c Cache) Set(", "\tif verifCacheOff {\n\t\treturn\n\t}\n")
+	return out, ok1 && ok2
 }
